@@ -4,22 +4,22 @@
 # On success store it as /verif/seeded/<ID>-m<k>/ (patch.diff, demo.py, meta.json with what was run).
 set -u
 id="$1"; k="$2"
-src="/tmp/mut/$id/out"
+src="${SRC:-/tmp/mut}/$id/out"; pfx="${PFX:-m}"
 wt="/root/scratch/confirm_${id}_m${k}_$$"
 mkdir -p /root/scratch
 git -C /repo worktree add -q --detach "$wt" HEAD || exit 2
 trap 'git -C /repo worktree remove --force "$wt" >/dev/null 2>&1' EXIT
-run_demo() { (cd "$wt" && PYTHONPATH="$wt" PYTHONWARNINGS=ignore timeout 900 /venv/bin/python "$src/m${k}_demo.py" >/dev/null 2>"$wt/.demo_err"; echo $?); }
+run_demo() { (cd "$wt" && PYTHONPATH="$wt" PYTHONWARNINGS=ignore timeout 900 /venv/bin/python "$src/${pfx}${k}_demo.py" >/dev/null 2>"$wt/.demo_err"; echo $?); }
 clean_rc=$(run_demo)
-if ! git -C "$wt" apply "$src/m${k}.diff"; then echo "$id m$k: PATCH DOES NOT APPLY"; exit 1; fi
+if ! git -C "$wt" apply "$src/${pfx}${k}.diff"; then echo "$id ${pfx}$k: PATCH DOES NOT APPLY"; exit 1; fi
 mut_rc=$(run_demo)
 mut_msg="$(tail -n 3 "$wt/.demo_err" | tr '\n' ' ' | cut -c1-400)"
 tests="$(cd "$wt" && PYTHONPATH="$wt" timeout 2400 /venv/bin/python -m pytest -q -p no:cacheprovider --timeout=900 -n "${NJ:-4}" 2>&1 | tail -n 1)"
-echo "$id m$k: demo clean rc=$clean_rc, mutated rc=$mut_rc; tests: $tests"
+echo "$id ${pfx}$k: demo clean rc=$clean_rc, mutated rc=$mut_rc; tests: $tests"
 if [ "$clean_rc" = 0 ] && [ "$mut_rc" != 0 ] && echo "$tests" | grep -q "65 passed" && ! echo "$tests" | grep -q failed; then
-  d="/verif/seeded/${id}-m${k}"; mkdir -p "$d"
-  cp "$src/m${k}.diff" "$d/patch.diff"; cp "$src/m${k}_demo.py" "$d/demo.py"
-  python3 - "$src/m${k}_meta.json" "$d/meta.json" "$id" "$clean_rc" "$mut_rc" "$tests" "$mut_msg" <<'PY'
+  d="/verif/seeded/${id}-${pfx}${k}"; mkdir -p "$d"
+  cp "$src/${pfx}${k}.diff" "$d/patch.diff"; cp "$src/${pfx}${k}_demo.py" "$d/demo.py"
+  python3 - "$src/${pfx}${k}_meta.json" "$d/meta.json" "$id" "$clean_rc" "$mut_rc" "$tests" "$mut_msg" <<'PY'
 import json,sys
 src,dst,pid,c,m,tests,msg=sys.argv[1:8]
 meta=json.load(open(src))
@@ -29,7 +29,7 @@ out={"property":pid,"breaks":meta.get("summary"),"needs":meta.get("needs"),"why_
   "commands":["PYTHONPATH=<wt> /venv/bin/python demo.py (clean, then after git apply patch.diff)","cd <wt> && /venv/bin/python -m pytest -q -p no:cacheprovider --timeout=900 -n 4"]}}
 json.dump(out,open(dst,"w"),indent=1)
 PY
-  echo "$id m$k: CONFIRMED -> $d"
+  echo "$id ${pfx}$k: CONFIRMED -> $d"
 else
-  echo "$id m$k: NOT CONFIRMED"
+  echo "$id ${pfx}$k: NOT CONFIRMED"
 fi
